@@ -60,7 +60,7 @@ def check(acc, desc, order, repeat=False):
     acc.transitions += 1
     try:
         if repeat:
-            cg.tx.ternary(c)  # an earlier call on the same object must not matter
+            space.scramble(cg.tx.ternary(c))  # an earlier call (its result edited by the caller) on the same object must not matter
             if repeat == "edit":
                 flip = {"and": "or", "or": "and", "xor": "xnor", "xnor": "xor", "nand": "nor", "nor": "nand", "buf": "not", "not": "buf"}
                 for g in sorted(c.graph.nodes):
